@@ -106,6 +106,16 @@ func buildHostTree(kind string) (*hostTree, error) {
 	}
 	t.huge = map[string]hugeFile{}
 	hostOnly := map[string][]byte{}
+	if kind == "maxextent" {
+		nbig = 5
+		// a contiguous file of exactly 32768 blocks of 1 KiB: after e2fsck -E bmap2extent it is one extent of the maximum
+		// length a written extent can have (mke2fs itself caps extents at 32767)
+		mb := randomBytes(2020, 32768*1024)
+		for i := range mb {
+			mb[i] |= 1 // no zero bytes: a range read as a hole is unmistakable
+		}
+		add("maxextent.bin", mb)
+	}
 	if kind == "special" {
 		nbig = 30
 		// a sparse file larger than 4 GiB: data at 0 and just beyond 4 GiB, holes in between and behind
@@ -244,12 +254,17 @@ func runMkfsCase(c *mkfsCase) (sig, msg, outcome string) {
 	if c.Tree == "special" {
 		size = "32M"
 	}
+	rootOwner := "root_owner=0:0"
+	if c.Tree == "maxextent" {
+		size = "64M"
+		rootOwner += ",num_backup_sb=0" // with sparse_super2: no backup superblocks, the free space is one contiguous run
+	}
 	feats := append([]string{}, c.Features...)
 	fstype := "ext4"
 	if c.FSType == "ext2-style" {
 		feats = append(feats, "^extent", "^flex_bg", "^64bit", "^metadata_csum", "^huge_file", "^has_journal")
 	}
-	args := []string{"-q", "-F", "-t", fstype, "-b", fmt.Sprint(c.BlockSize), "-I", fmt.Sprint(c.InodeSize), "-E", "root_owner=0:0", "-d", t.dir}
+	args := []string{"-q", "-F", "-t", fstype, "-b", fmt.Sprint(c.BlockSize), "-I", fmt.Sprint(c.InodeSize), "-E", rootOwner, "-d", t.dir}
 	if len(feats) > 0 {
 		args = append(args, "-O", strings.Join(feats, ","))
 	}
@@ -296,6 +311,9 @@ func runMkfsCase(c *mkfsCase) (sig, msg, outcome string) {
 	}
 	if hasDirIndex {
 		_, _ = runCmd("/usr/sbin/e2fsck", "-f", "-y", "-D", img) // converts the big directory into a hash tree
+	}
+	if c.Tree == "maxextent" {
+		_, _ = runCmd("/usr/sbin/e2fsck", "-f", "-y", "-E", "bmap2extent", img) // rebuilds the extent trees, merging neighbours
 	}
 	if len(t.removed) > 0 {
 		var rm []string
@@ -502,6 +520,8 @@ func runMkfsCase(c *mkfsCase) (sig, msg, outcome string) {
 
 func fileClass(p string) string {
 	switch {
+	case strings.HasPrefix(p, "maxextent"):
+		return "max-length-extent"
 	case strings.HasPrefix(p, "holes/"):
 		return "dir-with-removed-entries"
 	case strings.HasPrefix(p, "bigdir/"):
@@ -545,11 +565,13 @@ func enumC20(quick bool) []mkfsCase {
 			cs = append(cs, mkfsCase{BlockSize: bs, InodeSize: is, FSType: "ext2-style", Tree: "std"})
 		}
 	}
-	// a sparse file beyond 4 GiB and a directory with removed entries in front of live ones (hashed and linear)
+	// a sparse file beyond 4 GiB and a directory with removed entries in front of live ones (hashed and linear; plus a contiguous 32 MiB file that e2fsck -E bmap2extent turns into one extent of the maximum length 32768)
 	for _, bs := range []int{1024, 4096} {
 		cs = append(cs, mkfsCase{BlockSize: bs, InodeSize: 256, Features: []string{"metadata_csum", "dir_index"}, FSType: "ext4", Tree: "special"})
 		cs = append(cs, mkfsCase{BlockSize: bs, InodeSize: 256, Features: []string{"metadata_csum", "^dir_index"}, FSType: "ext4", Tree: "special"})
 	}
+	// one extent of the maximum length (32768 blocks)
+	cs = append(cs, mkfsCase{BlockSize: 1024, InodeSize: 256, Features: []string{"metadata_csum", "sparse_super2", "^has_journal"}, FSType: "ext4", Tree: "maxextent"})
 	// a directory large enough for a hash tree with an interior level
 	cs = append(cs, mkfsCase{BlockSize: 1024, InodeSize: 256, Features: []string{"dir_index"}, FSType: "ext4", Tree: "deep-htree"})
 	if !quick {
@@ -580,7 +602,7 @@ func C20(r *ev.Run) {
 	r.Set("evaluations", int64(done))
 	r.Set("distinct_nontrivial", int64(ok.n()))
 	r.Set("distinct_outcomes", outcomes.snapshot())
-	r.Set("rule", "images built by the reference tools: a host tree (400-entry directory turned into a hash tree by e2fsck -fD, a file of 200 alternating data/hole blocks, a file behind a 1 MiB hole, plain files, symlinks of 59/60/200 bytes and a relative one, in-inode and block xattrs via debugfs ea_set, odd modes/owners with different upper halves/post-2038 times via debugfs sif; plus a 2000-entry directory of 180-character names whose hash tree has an interior level; plus a tree with a sparse file of 4 GiB+40 KiB (data at 0 and just beyond 4 GiB, read through probe windows in and around the holes) and a 200-entry directory from which a run of 80 neighbouring entries was removed with debugfs rm after indexing, hashed and linear) written by mke2fs -d for block size {1K,2K,4K} x inode size {128,256} x every subset (quick: all-on, all-off, single-on, single-off) of {64bit, flex_bg, metadata_csum, dir_index, huge_file, sparse_super2, has_journal} plus ext2-style images without extents; each image verified clean with e2fsck first. The library must refuse the image, return an error for what it cannot read, or report exactly what was put in: tree, bytes (holes as zeros), sizes, modes, owners, times, link targets, xattrs. non-trivial = distinct images that mke2fs accepted and that the library opened, refused or walked")
+	r.Set("rule", "images built by the reference tools: a host tree (400-entry directory turned into a hash tree by e2fsck -fD, a file of 200 alternating data/hole blocks, a file behind a 1 MiB hole, plain files, symlinks of 59/60/200 bytes and a relative one, in-inode and block xattrs via debugfs ea_set, odd modes/owners with different upper halves/post-2038 times via debugfs sif; plus a 2000-entry directory of 180-character names whose hash tree has an interior level; plus a tree with a sparse file of 4 GiB+40 KiB (data at 0 and just beyond 4 GiB, read through probe windows in and around the holes) and a 200-entry directory from which a run of 80 neighbouring entries was removed with debugfs rm after indexing, hashed and linear; plus a contiguous 32 MiB file that e2fsck -E bmap2extent turns into one extent of the maximum length 32768) written by mke2fs -d for block size {1K,2K,4K} x inode size {128,256} x every subset (quick: all-on, all-off, single-on, single-off) of {64bit, flex_bg, metadata_csum, dir_index, huge_file, sparse_super2, has_journal} plus ext2-style images without extents; each image verified clean with e2fsck first. The library must refuse the image, return an error for what it cannot read, or report exactly what was put in: tree, bytes (holes as zeros), sizes, modes, owners, times, link targets, xattrs. non-trivial = distinct images that mke2fs accepted and that the library opened, refused or walked")
 	r.Set("exhaustive", done == len(cases))
 	r.Assume("e2fsprogs 1.47.0 builds the reference images; a refusal or an error is always acceptable, only silent wrong data is a violation")
 }
